@@ -43,6 +43,7 @@ type scriptScn struct {
 	QLen      int         `json:"qlen"`
 	Open      [2][]uint32 `json:"open"`
 	Cut       [2]int      `json:"cut"`     // byte budget of the side's trunk writes, -1 = unlimited
+	CutErr    [2]string   `json:"cuterr"`  // "", "timeout", "temporary": the kind of error the failing trunk.Write returns (see recConn)
 	Blocked   [2]bool     `json:"blocked"` // the side's reader stays blocked until an "unblock" act
 	Raw       [2]bool     `json:"raw"`     // the side is a bare transport end without a Mux
 	Acts      []act       `json:"acts"`
@@ -148,6 +149,7 @@ func execScript(s *scriptScn) *scriptObs {
 		return o
 	}
 	recs := [2]*recConn{newRec(ca, s.Cut[0]), newRec(cb, s.Cut[1])}
+	recs[0].cutErr, recs[1].cutErr = s.CutErr[0], s.CutErr[1]
 	defer func() {
 		recs[0].Conn.Close()
 		recs[1].Conn.Close()
